@@ -270,7 +270,19 @@ fn gen_c04(rng: &mut Rng, _tier: Tier, faults: bool) -> LoopScn {
             s.sample_size = Some(1);
         }
     }
+    pick_overhead_measurement(rng, &mut s);
     s
+}
+
+/// One run in four is "the first benchmark of the process": the one-off
+/// measurement of benchmarking overheads takes time of the order of the
+/// rounds and limits of the scenario (it is not benchmarking time).
+fn pick_overhead_measurement(rng: &mut Rng, s: &mut LoopScn) {
+    if rng.chance(1, 4) {
+        let rt = est_round_ticks(s).max(1);
+        let k = *rng.pick(&[1u64, 2, 6, 20, 80]);
+        s.overhead_measure_ticks = (rt / 2).saturating_mul(k as u128).saturating_add(rng.below(3) as u128).min(1 << 40) as u64;
+    }
 }
 
 fn gen_c05(rng: &mut Rng, tier: Tier, faults: bool) -> LoopScn {
@@ -516,6 +528,9 @@ fn gen_c19(rng: &mut Rng, tier: Tier) -> LoopScn {
     // With large final sizes keep the number of collected rounds small.
     if threshold_ticks / base.max(1) > 64 {
         s.sample_count = s.sample_count.map(|n| n.min(2));
+    }
+    if s.max_time.is_some() {
+        pick_overhead_measurement(rng, &mut s);
     }
     s
 }
